@@ -98,6 +98,7 @@ DEFAULT_FEATURES: Dict[str, float] = {
     "abstract_in_mixin": 0.0,  # abstract-typed field inside a fragment that may be inherited (finding C01-F4)
     "mixin_field": 0.12,  # @mixin on a composite field
     "mixin_fragment": 0.15,  # @mixin on a fragment definition
+    "mixin_twice": 0.3,  # two @mixin directives on the same node (the directive is repeatable)
     "mixin_operation": 0.0,  # @mixin on the operation (needs the directive declared by the schema)
     "mixin_malformed": 0.0,  # @mixin with a missing / non-literal argument (documented refusal)
     "unused": 0.5,  # fragments no operation spreads
@@ -149,14 +150,17 @@ class FragGraphGen:
     def mixin_dir(self, key: str) -> List[Dict[str, Any]]:
         if not self.p(key):
             return []
-        self.mixin_n += 1
-        mod = MIXIN_MODULES[self.mixin_n % 2]
-        cls = f"Mixin{self.mixin_n}"
-        self.mixin_classes.append((mod, cls))
-        d: Dict[str, Any] = {"name": "mixin", "from": "." + mod, "import": cls}
-        if self.p("mixin_malformed"):
-            d["malformed"] = self.rng.choice(["no-import", "no-from", "variable"])
-        return [d]
+        out = []
+        for _ in range(2 if self.p("mixin_twice") else 1):  # the directive is repeatable
+            self.mixin_n += 1
+            mod = MIXIN_MODULES[self.mixin_n % 2]
+            cls = f"Mixin{self.mixin_n}"
+            self.mixin_classes.append((mod, cls))
+            d: Dict[str, Any] = {"name": "mixin", "from": "." + mod, "import": cls}
+            if self.p("mixin_malformed"):
+                d["malformed"] = self.rng.choice(["no-import", "no-from"])
+            out.append(d)
+        return out
 
     # ---- composite response keys a selection set contributes to the object it is merged into
     def composite_keys(self, sel: List[Dict[str, Any]], seen: Optional[Set[str]] = None) -> Set[str]:
@@ -392,26 +396,14 @@ class FragGraphGen:
 OP_NAMES = ["GetThing", "listItems", "FetchAll", "search_nodes", "Q1", "loadPage", "viewer", "Overview"]
 
 
-def _render_dirs_patch(doc_text: str) -> str:
-    return doc_text
-
-
 def render_case_document(ops: List[Dict[str, Any]], frags: List[Dict[str, Any]], order: List[int]) -> str:
     """definitions in the given (shuffled) order; malformed @mixin variants are rendered here"""
     defs: List[Tuple[str, Dict[str, Any]]] = [("op", o) for o in ops] + [("frag", f) for f in frags]
     out = []
     for i in order:
         k, d = defs[i]
-        text = ops_gen.render_operation(d) if k == "op" else ops_gen.render_fragment(d)
-        out.append(text)
-    text = "\n\n".join(out) + "\n"
-    return text
-
-
-def _apply_malformed(node: Any) -> None:
-    """rewrite malformed @mixin markers into directive dicts that ops_gen._dirs renders differently"""
-    # ops_gen._dirs renders {"name": "mixin", "from", "import"}; malformed variants are handled by text substitution
-    return None
+        out.append(ops_gen.render_operation(d) if k == "op" else ops_gen.render_fragment(d))
+    return "\n\n".join(out) + "\n"
 
 
 def gen_case(rng: random.Random, features: Optional[Dict[str, float]] = None, label: str = "rand") -> Optional[Dict[str, Any]]:
@@ -444,18 +436,13 @@ def gen_case(rng: random.Random, features: Optional[Dict[str, float]] = None, la
     rng.shuffle(order)
     text = render_case_document(ops, frags, order)
     declare = any(o.get("dirs") for o in ops)
-    # malformed @mixin arguments: rendered by substitution on the directive text
+    # malformed @mixin arguments (documented refusal): rendered by substitution on the directive text
     malformed = []
-    for mod, cls in g.mixin_classes:
-        pass
     for holder in _all_dir_holders(ops, frags):
         for d in holder:
             if d.get("malformed"):
                 good = f'@mixin(from: "{d["from"]}", import: "{d["import"]}")'
-                bad = {"no-import": f'@mixin(from: "{d["from"]}")', "no-from": f'@mixin(import: "{d["import"]}")',
-                       "variable": f'@mixin(from: "{d["from"]}", import: "{d["import"]}", from: "x")'}[d["malformed"]]
-                if d["malformed"] == "variable":
-                    bad = f'@mixin(import: "{d["import"]}")'
+                bad = {"no-import": f'@mixin(from: "{d["from"]}")', "no-from": f'@mixin(import: "{d["import"]}")'}[d["malformed"]]
                 text = text.replace(good, bad)
                 malformed.append(d["malformed"])
     sdl = (MIXIN_DECL if declare else "") + schema_gen.to_sdl(schema)
@@ -811,6 +798,10 @@ def measure(res: Result, label: str, case: Dict[str, Any], impl: Dict[str, Any])
         res.count(f"{label}:@mixin-on-operation")
     if re.search(r"^fragment \w+ on \w+ @mixin", q, re.M):
         res.count(f"{label}:@mixin-on-fragment")
+    if re.search(r"^\s+\w+ @mixin", q, re.M):
+        res.count(f"{label}:@mixin-on-field")
+    if re.search(r"@mixin\([^)]*\) @mixin", q):
+        res.count(f"{label}:two-@mixin-on-one-node")
     fr = impl.get("fragments")
     if fr:
         deps = dict((n, ds) for n, ds in fr["deps"])
@@ -1148,3 +1139,208 @@ def oracle(ctx: Ctx, res: Result, cases: List[Dict[str, Any]], irs: List[Dict[st
         for sig, trig, detail in classify_failure(case, ir, o):
             res.count(f"{label}:failure:{sig}")
             res.failures.append(Failure(sig, trig, {"case": slim(case)}, detail))
+
+
+# --------------------------------------------------------------------------------------------
+# Spec.Py on random class tables; the acyclicity assumption; corpus; entry points
+# --------------------------------------------------------------------------------------------
+
+
+def rand_table(rng: random.Random) -> List[List[Any]]:
+    n = rng.randint(1, 8)
+    names = rng.sample(["A", "B", "C", "D", "E", "F", "G", "H", "Zed", "Aa"], n)
+    ext = ["BaseModel", "M1", "M2"]
+    table: List[List[Any]] = []
+    for i, c in enumerate(names):
+        pool = names[:i] + ext
+        k = rng.randint(1, min(3, len(pool)))
+        bases = rng.sample(pool, k)
+        if rng.random() < 0.6:
+            bases = sorted(b for b in bases if b not in ext) + [b for b in bases if b in ext]
+        if rng.random() < 0.03:
+            bases.append(bases[0])  # duplicate base class
+        table.append([c, bases])
+    return table
+
+
+def real_issubclass(table: List[List[Any]], c: str, b: str) -> Optional[bool]:
+    """CPython's answer on stand-in classes; None when the classes cannot be created"""
+    ns: Dict[str, type] = {}
+    for name, bases in table:
+        if name in ns:
+            continue
+        bs = []
+        for x in bases:
+            if x not in ns:
+                ns[x] = type(x, (), {})
+            bs.append(ns[x])
+        try:
+            ns[name] = type(name, tuple(bs), {})
+        except TypeError:
+            return None
+    for x in (c, b):
+        if x not in ns:
+            ns[x] = type(x, (), {})
+    return issubclass(ns[c], ns[b])
+
+
+def corr_spec_py(ctx: Ctx, st: Optional[LeanStatus], res: Result) -> None:
+    rng = ctx.sub_rng("specpy")
+    lines, expect = [], []
+    for _ in range(ctx.budget(1500, 15000)):
+        t = rand_table(rng)
+        lines.append({"op": "mro", "classes": t})
+        expect.append(("Spec.Py.mro", t, real_mro(t)))
+        names = [c for c, _ in t] + ["BaseModel", "M1"]
+        c, b = rng.choice(names), rng.choice(names)
+        want = real_issubclass(t, c, b)
+        if want is not None:
+            lines.append({"op": "subclass", "classes": t, "c": c, "b": b})
+            expect.append(("Spec.Py.isSubclass", {"table": t, "c": c, "b": b}, want))
+    if st is None or not st.driver_ok:
+        return
+    got = common.run_driver(PROP, lines)
+    for (name, inp, want), g in zip(expect, got):
+        res.seen([name, inp], nontrivial=True)
+        res.count("specpy:" + name + (":conflict" if want is None else ""))
+        if not common.same_json(want, g, ordered=True):
+            res.mismatches.append(Mismatch(name, inp, want, g))
+
+
+def deps_acyclic(ir: Dict[str, Any]) -> bool:
+    deps = {n: ds for n, ds in ((ir.get("fragments") or {}).get("deps") or [])}
+    state: Dict[str, int] = {}
+
+    def visit(n: str) -> bool:
+        if state.get(n) == 1:
+            return False
+        if state.get(n) == 2:
+            return True
+        state[n] = 1
+        ok = all(visit(d) for d in deps.get(n, []))
+        state[n] = 2
+        return ok
+
+    return all(visit(n) for n in list(deps))
+
+
+def load_corpus() -> List[Dict[str, Any]]:
+    d = common.CORPUS / PROP
+    return [json.loads(p.read_text()) for p in sorted(d.glob("*.json"))] if d.exists() else []
+
+
+def replay_corpus(ctx: Ctx, st: Optional[LeanStatus], res: Result) -> None:
+    items = load_corpus()
+    if not items:
+        return
+    cases = [it["case"] for it in items]
+    sub = Result()
+    irs = corr_packages(ctx, st, sub, cases, "corpus")
+    oracle(ctx, sub, cases, irs, "corpus")
+    findings = {f["id"]: f for f in common.load_findings(PROP)}
+    status: Dict[str, List[bool]] = {}
+    for it in items:
+        fid = it.get("finding")
+        mine = [f for f in sub.failures if f.input["case"]["id"] == it["case"]["id"]]
+        hit = any(f.signature == it.get("expect") for f in mine) if it.get("expect") else bool(mine)
+        if fid:
+            status.setdefault(fid, []).append(hit)
+            if findings.get(fid, {}).get("status") == "fixed":
+                for f in mine:  # a fixed finding that fails again is an unknown failure whatever it looks like
+                    f.trigger = None
+                    f.signature = "regression:" + fid + ":" + f.signature
+    for fid, hits in status.items():
+        res.witness_status[fid] = "reproduces" if any(hits) else "gone"
+    res.merge(sub)
+
+
+def judge(ctx: Ctx, st: Optional[LeanStatus], res: Result, cases: List[Dict[str, Any]], label: str, n_oracle: int) -> None:
+    irs = corr_packages(ctx, st, res, cases, label)
+    for case, ir in zip(cases, irs):
+        if ir.get("fragments") and not deps_acyclic(ir):
+            # hypothesis `Proved_08` of C08_partial (implied by GraphQL validation) does not hold on a validated document
+            res.mismatches.append(Mismatch("assumption:dependency-dict-acyclic", {"case": slim(case)}, "cyclic", "assumed acyclic"))
+        if ir.get("fragments"):
+            res.count(f"{label}:dependency-dict-acyclic (checked)")
+    # oracle: prefer packages outside the triggers (they can be judged completely), keep some inside
+    idx = list(range(len(cases)))
+    clean = [i for i in idx if "ops" in irs[i] and not irs[i].get("trigger") and not mro_conflict(irs[i])]
+    dirty = [i for i in idx if i not in clean and "observer" not in irs[i] and not cases[i].get("malformed")]
+    pick = clean[: max(0, n_oracle - min(len(dirty), n_oracle // 5))] + dirty[: n_oracle // 5]
+    oracle(ctx, res, [cases[i] for i in pick], [irs[i] for i in pick], label + ":oracle")
+
+
+REGION_FEATURES = {"reuse_conflicting": 0.35, "base_and_derived": 0.25, "abstract_in_mixin": 0.3, "mixin_operation": 0.4,
+                   "mixin_malformed": 0.03}
+
+
+def run(ctx: Ctx, st: Optional[LeanStatus]) -> Result:
+    res = Result()
+    res.rule = ("seeded fragment graphs over seeded schemas (chains, diamonds, fragments shared by operations, on objects/interfaces/unions, "
+                "with inline fragments, unused) x @mixin on fields / fragment definitions / operations x shuffled definition orders, all "
+                "validated by graphql-core: (1) package IR of the real PackageGenerator/FragmentsGenerator vs the Lean driver incl. both "
+                "finding triggers; (2) Spec.Py (C3 MRO, subclass) vs CPython on the emitted class tables and on random tables; (3) the "
+                "property oracle on real imported packages driven through MockTransport. A package case is non-trivial when a fragments "
+                "module is emitted, something is unpacked, or generation fails; an oracle case when at least one instance check ran")
+    res.extra["fingerprints"] = common.fingerprints(ctx, FINGERPRINTS)
+    engine.cleanup_scratch()
+    replay_corpus(ctx, st, res)
+    ctx.log(f"corpus replayed: {res.witness_status} mismatches={len(res.mismatches)}")
+    corr_spec_py(ctx, st, res)
+    ctx.log(f"Spec.Py correspondence done: mismatches={len(res.mismatches)}")
+    cases = make_cases(ctx.sub_rng("default"), ctx.budget(260, 2000), None, "rand")
+    judge(ctx, st, res, cases, "default", ctx.budget(90, 600))
+    ctx.log(f"default region done: evaluations={res.evaluations} mismatches={len(res.mismatches)} failures={len(res.failures)}")
+    rcases = make_cases(ctx.sub_rng("regions"), ctx.budget(90, 800), REGION_FEATURES, "region")
+    judge(ctx, st, res, rcases, "regions", ctx.budget(25, 160))
+    ctx.log(f"finding regions done: evaluations={res.evaluations} mismatches={len(res.mismatches)} failures={len(res.failures)}")
+    res.oracle_only += [
+        "'that class alone validates the same payload' (fragment_class_validates, should-tier): needs the pydantic reference semantics of C01; judged only by FragClass.model_validate(sub_payload) on the real packages",
+        "'the object returned is an instance': Lean proves the class statement lists the fragment class as a base (Spec.Py.IsSubclass); that pydantic returns an object of exactly that class at that position is observed (isinstance on returned objects)",
+        "unparse -> autoflake -> isort -> black -> CPython import + pydantic class creation of the emitted modules: observed on the generated packages; represented in Lean by Spec.Py.Loads (bases bound) and Spec.Py.mroOK (C3), both validated against CPython, not verified",
+        "hypothesis Proved_08 (dependency dict acyclic) is implied by graphql-core's NoFragmentCycles rule; checked on every observed dependency dict, not derived in Lean",
+    ]
+    res.assumptions += [
+        "graphql-core validation (all specified rules but NoUnusedFragments) runs before any generator: documents with fragment cycles / unknown fragments / duplicate names never reach the modelled code",
+        "plugins are not modelled (generate_fragments_module / generate_result_class hooks may rewrite bases)",
+        "classes imported through @mixin are unrelated root classes (no base classes of their own that conflict with BaseModel)",
+    ]
+    return res
+
+
+def search(ctx: Ctx) -> Result:
+    res = Result()
+    cases = make_cases(ctx.sub_rng("search"), 500, None, "search")
+    judge(ctx, None, res, cases, "search", 300)
+    rcases = make_cases(ctx.sub_rng("search-regions"), 200, REGION_FEATURES, "search-region")
+    judge(ctx, None, res, rcases, "search-regions", 80)
+    return res
+
+
+def replay(ctx: Ctx, payload: Dict[str, Any]) -> int:
+    inp = payload.get("input") or {}
+    case = inp.get("case") or payload.get("case")
+    if not case:
+        print(json.dumps(payload, indent=1)[:3000])
+        return 1
+    case.setdefault("server_sdl", MIXIN_DECL + case["sdl"] if "directive @mixin" not in case["sdl"] else case["sdl"])
+    _quiet()
+    status, o = engine.forked(observe_package, case, timeout=300)
+    if status != "ok":
+        print("harness:", status, o)
+        return 2
+    ir = o["impl"]
+    print("package IR:", json.dumps({k: (v if k != "ops" else [x["name"] for x in v]) for k, v in ir.items() if k not in ("fragments", "before")}, default=repr)[:600])
+    if ir.get("fragments"):
+        print("fragments order:", ir["fragments"]["order"], "deps:", ir["fragments"]["deps"])
+    status, ob = engine.forked(oracle_child, case, timeout=300)
+    if status != "ok":
+        print("harness:", status, ob)
+        return 2
+    fails = classify_failure(case, ir, ob)
+    print("generation:", ob.get("gen"), "import:", ob.get("import"))
+    for c in ob.get("calls", []):
+        print("  call", c["op"], c.get("outcome"), "checks=", c.get("checks"), "mixin_checks=", c.get("mixin_checks"))
+    for sig, trig, detail in fails:
+        print("FAIL", sig, "trigger=", trig, detail[:300])
+    return 1 if fails else 0
